@@ -19,8 +19,8 @@ DROP_CALLS = {'remove', 'remove_entry', 'swap_remove', 'pop'}
 
 
 class LoopCtx:
-    def __init__(self, it, head, blocks, start, src):
-        self.it, self.head, self.blocks, self.start, self.src = it, head, blocks, start, src
+    def __init__(self, it, head, blocks, start, src, sw=None):
+        self.it, self.head, self.blocks, self.start, self.src, self.sw = it, head, blocks, start, src, sw
         self.item = ('field', ('call', None, (src,)), 'Some.0')
 
     def source(self):
@@ -34,6 +34,10 @@ class LoopCtx:
         if path is not None and tuple(pp[1]) != tuple(path):
             return False
         return not (set(iter_adaptors(self.src)) & LOSSY_ADAPTORS)
+
+    def early_exits(self):
+        """Blocks of the loop, other than its `next()` test, that can leave the loop (break / return / `?`)."""
+        return sorted(b for b in self.blocks if b != self.sw and any(x not in self.blocks for x in self.it.succs.get(b, [])))
 
     def inner(self, rc):
         return rc._reach(self.start, {self.head})
@@ -75,10 +79,10 @@ def loops_of(it):
                             # prefer the switch closest to the head
                             d = len(it.dom[x])
                             if cand is None or d < cand[0]:
-                                cand = (d, tb, src)
+                                cand = (d, tb, src, x)
         if cand:
             seen.add(h)
-            out.append(LoopCtx(it, h, loop, cand[1], cand[2]))
+            out.append(LoopCtx(it, h, loop, cand[1], cand[2], cand[3]))
     return out
 
 
